@@ -123,6 +123,8 @@ def _fmt(v):
     """str() of a value inside an f-string; tokens (Obj with a 'fmt' attribute) print their placeholder."""
     if isinstance(v, Obj):
         return v.attrs.get("fmt")
+    if isinstance(v, T):
+        return f"<<{v!r}>>"
     if isinstance(v, (tuple, list)):
         parts = [_fmt(x) if not isinstance(x, str) else repr(x) for x in v]
         if any(p is None for p in parts):
@@ -182,7 +184,7 @@ class Interp:
             "filter": PyFunc(lambda f, seq: [x for x in list(seq) if self.truth(self.call(f, [x], {}) if f is not None else x)], "filter", True),
             "map": PyFunc(lambda f, *seqs: [self.call(f, list(xs), {}) for xs in zip(*[list(q) for q in seqs])], "map", True), "iter": PyFunc(iter, "iter"), "next": PyFunc(next, "next"),
             "print": PyFunc(lambda *a, **k: None, "print", True),
-            "getattr": PyFunc(lambda o, n, *d: self.getattr_value(o, n), "getattr", True),
+            "getattr": PyFunc(self._getattr, "getattr", True),
             "True": True, "False": False, "None": None,
             "Exception": ClassRef("Exception"), "ValueError": ClassRef("ValueError"), "TypeError": ClassRef("TypeError"),
             "NotImplementedError": ClassRef("NotImplementedError"), "ZeroDivisionError": ClassRef("ZeroDivisionError"),
@@ -249,6 +251,21 @@ class Interp:
                     return self.call_function(d, [v], {}, {}, self.instance_classes[v.kind].split(".")[0])
             return Unk("len")
         return len(v)
+
+    def _getattr(self, o, n, *default):
+        if default:
+            if isinstance(o, (list, tuple, dict, str, int, float)) and not hasattr(o, n):
+                return default[0]
+            if isinstance(o, Obj) and n not in o.attrs and n not in o.methods and o.kind not in self.instance_classes \
+                    and "__getattr__" not in o.methods:
+                return default[0]
+            try:
+                return self.getattr_value(o, n)
+            except Raised as r:
+                if r.name == "AttributeError":
+                    return default[0]
+                raise
+        return self.getattr_value(o, n)
 
     def _iterable(self, v):
         if isinstance(v, Obj) and "__iter__" in v.methods:
@@ -425,6 +442,11 @@ class Interp:
         return self.call_function(e.node, [t] + list(args), kwargs, {}, self._module_of_cls(t.cls))
 
     def opaque_method(self, t: T, name, args, kwargs):
+        if name in ("values", "items", "keys") and not args:
+            if t.is_pure_scalar():
+                return {"values": [t], "items": [(0, t)], "keys": (0,)}[name]
+            k, v = Obj("keys-of", {"fmt": f"keys({t!r})", "of": t}), Obj("values-of", {"fmt": f"values({t!r})", "of": t})
+            return {"values": [v], "items": [(k, v)], "keys": (k,)}[name]
         if any(isinstance(a, Unk) for a in args):
             return Unk(name)
         r = T.opaque(name, (t,) + tuple(args), t.cls)
@@ -519,6 +541,9 @@ class Interp:
         if isinstance(v, Unk):
             raise NoValue(f"branch on unknown value {v.desc} in {un(node) if node is not None else ''}")
         if isinstance(v, T):
+            hook = getattr(self, "t_truth", None)
+            if hook is not None:
+                return hook(v)
             table = self.tables.get(v.cls, {})
             if "__bool__" in table:
                 raise NoValue("truth value of a multivector-typed value")
